@@ -21,7 +21,12 @@ RULE = (
     "comparison whose operation differs from the first one used on the site must log TypeError; "
     "comparisons that raise on the plain value are outside the scope and skipped. sessions: real pytest "
     "sessions check `snapshot(v) is v` under disable / a CI variable / xdist -n 2 / xfail, and that the "
-    "per-test pass/fail vector without flags equals that under --inline-snapshot=disable. non-trivial = "
+    "per-test pass/fail vector without flags equals that under --inline-snapshot=disable. conditional: one "
+    "== site evaluated in a loop / through a function whose hand-written argument holds user-controlled parts "
+    "that change per evaluation - `snapshot(a) if c == 0 else snapshot(b)` (documented conditional inner "
+    "snapshots) and `Is(ALT[c])` - inside lists, tuples, dicts, nested containers and constructor calls, with "
+    "and without a star-expression (`*BASE`, `**DBASE`, `**{...}`) in the same container; the "
+    "logged results must equal those of the plain values. non-trivial = "
     ">= 2 comparisons with a False outcome among them, or a nested Is/inner snapshot, or a mixed-operation "
     "sequence."
 )
@@ -308,9 +313,144 @@ def check_sessions(case):
     return {"nontrivial": True, "classes": [mode], "sample": {"mode": mode, "module": src}}
 
 
+# ----------------------------------------------------------------------------- conditional parts
+
+
+@st.composite
+def _cond_case(draw, tier):
+    """one == site evaluated in a loop; some positions of its hand-written argument are user-controlled and
+    select a different inner snapshot / Is() value per iteration (docs/eq_snapshot.md, conditional snapshots)"""
+    leaf = gv.values(tier, 3, opaque=False)
+    n = draw(st.sampled_from([1, 2, 3, 4]))
+    elems = []
+    for _ in range(n):
+        kind = draw(st.sampled_from(["plain", "cond", "cond", "is", "cond3"]))
+        if kind == "plain":
+            elems.append(["plain", draw(leaf)])
+        elif kind == "cond":
+            elems.append(["cond", draw(leaf), draw(leaf)])
+        elif kind == "cond3":
+            elems.append(["cond3", draw(leaf), draw(leaf), draw(leaf)])
+        else:
+            elems.append(["is", draw(leaf), draw(leaf), draw(leaf)])
+    shape = draw(st.sampled_from(["list", "tuple", "dict", "nested", "call", "bare"]))
+    if shape == "call":
+        elems = elems[:2]
+    if shape == "bare":
+        elems = [e for e in elems if e[0] != "plain"][:1] or [["cond", draw(leaf), draw(leaf)]]
+    iters = []
+    for _ in range(draw(st.sampled_from([1, 2, 3, 4, 5]))):
+        c = draw(st.sampled_from([0, 1, 2]))
+        wrong = draw(st.sampled_from([None, None, None, 0, 1, 2, 3]))
+        iters.append([c, wrong])
+    return {"elems": elems, "shape": shape, "iters": iters,
+            "place": draw(st.sampled_from(["loop", "func", "param"])),
+            # a star-expression in the same container (the container is then left to the user as a whole)
+            "star": draw(st.sampled_from([False, False, True]))}
+
+
+def _pick(e, c):
+    if e[0] == "plain":
+        return e[1]
+    if e[0] == "cond":
+        return e[1] if c == 0 else e[2]
+    return e[1 + c]
+
+
+def _cond_text(e, i):
+    if e[0] == "plain":
+        return gv.natural(e[1])
+    if e[0] == "cond":
+        return f"(snapshot({gv.natural(e[1])}) if c == 0 else snapshot({gv.natural(e[2])}))"
+    if e[0] == "cond3":
+        return (f"(snapshot({gv.natural(e[1])}) if c == 0 else snapshot({gv.natural(e[2])}) if c == 1 "
+                f"else snapshot({gv.natural(e[3])}))")
+    return f"Is(ALT{i}[c])"
+
+
+def _shape(shape, parts, star=None):
+    """star: None | "src" (star-expression in the snapshot argument) | "val" (the same content spelled out)"""
+    pre = {"src": ["*BASE"], "val": ["1", "2"], None: []}[star]
+    dpre = {"src": ["**DBASE"], "val": ["'a': 1", "'b': 2"], None: []}[star]
+    if shape == "list":
+        return "[" + ", ".join(pre + parts) + "]"
+    if shape == "tuple":
+        return "(" + ", ".join(pre + parts) + ("," if len(pre + parts) == 1 else "") + ")"
+    if shape == "dict":
+        return "{" + ", ".join(dpre + [f"'k{i}': {p}" for i, p in enumerate(parts)]) + "}"
+    if shape == "nested":
+        return "[[" + ", ".join(pre + parts) + "], {'t': (" + parts[0] + ",)}]"
+    if shape == "call":
+        kw = [f"{n}={p}" for n, p in zip("xy", parts)]
+        if star == "src":
+            kw[0] = "**{'x': " + parts[0] + "}"
+        return "Point(" + ", ".join(kw) + ")"
+    return parts[0]
+
+
+def build_cond_module(case):
+    elems, shape = case["elems"], case["shape"]
+    lines = [PRELUDE.rstrip("\n"), ""]
+    for i, e in enumerate(elems):
+        if e[0] == "is":
+            lines.append(f"ALT{i} = [{', '.join(gv.render(x) for x in e[1:4])}]")
+    star = case.get("star", False)
+    if star:
+        lines += ["BASE = [1, 2]", "DBASE = {'a': 1, 'b': 2}"]
+    text = _shape(shape, [_cond_text(e, i) for i, e in enumerate(elems)], "src" if star else None)
+    xs = []
+    for c, wrong in case["iters"]:
+        vals = [gv.render(_pick(e, c)) for e in elems]
+        if wrong is not None and wrong < len(vals):
+            vals[wrong] = "'<other>'"
+        xs.append(f"({c}, {_shape(shape, vals, 'val' if star else None)})")
+    lines.append(f"CASES = [{', '.join(xs)}]")
+    lines.append("")
+    if case["place"] == "func":
+        lines += ["def cmp(c, x):", f"    return x == snapshot({text})", "", "def test_a():",
+                  "    for c, x in CASES:", "        LOG.append(outcome(lambda: cmp(c, x)))"]
+    elif case["place"] == "param":
+        lines += ["def body(c, x):", f"    LOG.append(outcome(lambda: x == snapshot({text})))", "",
+                  "def test_a():", "    for c, x in CASES:", "        body(c, x)"]
+    else:
+        lines += ["def test_a():", "    for c, x in CASES:",
+                  f"        LOG.append(outcome(lambda: x == snapshot({text})))"]
+    return "\n".join(lines) + "\n"
+
+
+def check_cond(case):
+    src = build_cond_module(case)
+    g, results, exec_error = drivers.run_disabled({"test_a.py": drivers.stub_source(src)})
+    if exec_error is not None or any(v is not None for v in results.values()):
+        raise RuntimeError(f"harness: plain module does not run: {exec_error} {results}\n{src}")
+    plain = list(g["test_a.py"]["LOG"])
+    ses = drivers.run_inline({"test_a.py": src}, ())
+    if ses.exec_error is not None:
+        raise Violation("exec-error", f"{type(ses.exec_error).__name__}: {ses.exec_error}\n{src}")
+    exc = ses.test_results.get("test_a.py::test_a")
+    if exc is not None:
+        raise Violation("test-raised", f"{type(exc).__name__}: {exc}\n{src}")
+    active = list(ses.globals["test_a.py"]["LOG"])
+    if any(isinstance(x, str) for x in plain):
+        return {"nontrivial": False, "classes": ["plain-raises"]}
+    if active != plain:
+        raise Violation("differs:conditional",
+                        f"snapshot says {active!r}, plain values say {plain!r}\n{src}")
+    cs = [c for c, _w in case["iters"]]
+    switched = any(a != b for a, b in zip(cs, cs[1:]))
+    has_cond = any(e[0] in ("cond", "cond3") for e in case["elems"])
+    return {"nontrivial": switched and has_cond,
+            "classes": [case["shape"] + ("+star" if case.get("star") else ""), case["place"],
+                        "switched" if switched else "constant",
+                        "inner-snapshot" if has_cond else "is-only"] + (["has-false"] if False in plain else []),
+            "sample": {"module": src, "log": [repr(x) for x in active]}}
+
+
 ARMS = [
     HypArm("differential", lambda tier: _case(tier), check_diff,
            budget={"quick": 3000, "thorough": 200000}, shards={"quick": 8, "thorough": 64}),
+    HypArm("conditional", lambda tier: _cond_case(tier), check_cond,
+           budget={"quick": 800, "thorough": 40000}, shards={"quick": 8, "thorough": 64}),
     HypArm("sessions", lambda tier: _sess_case(tier), check_sessions,
            budget={"quick": 48, "thorough": 1500}, shrink=False),
 ]
